@@ -148,7 +148,9 @@ class Env:
         self.valid_hash = 0xCBF29CE484222325
         self.pred_calls = 0
         self.sample_calls = 0
+        self.second = False
         self.struck = []  # flattened states on which the fault struck
+        self.struck_now = set()  # ... and that no later unfaulted call has accepted since
         self.samples = [mk_state(sc["variant"], v) for v in sc["goal"]["samples"]]
 
     def _strike(self, target, idx, x):
@@ -179,24 +181,43 @@ class Env:
                 h ^= b
                 h = (h * 0x100000001B3) & MASK
         self.valid_hash = h
+        key = tuple(bits(c) for c in x)
         if self._strike("valid", idx, x):
-            self.struck.append(tuple(bits(c) for c in x))
+            self.struck.append(key)
+            self.struck_now.add(key)
             if self.as_false:
                 return False
             return self._misbehave()
-        return not any(ev(p, x) for p in self.sc["obstacles"])
+        ok = not any(ev(p, x) for p in (self.sc["obstacles2"] if self.second else self.sc["obstacles"]))
+        if ok:
+            # a later, unfaulted query accepted this state: it may legitimately appear on a path
+            self.struck_now.discard(key)
+        return ok
+
+    def valid2(self, s):
+        """the second validity callback of a history (re-setup); same trace, other obstacles"""
+        self.second = True
+        try:
+            return self.valid(s)
+        finally:
+            self.second = False
 
     # goal object protocol
     def is_satisfied(self, s):
         x = flatten(s, [])
         idx = self.pred_calls
         self.pred_calls += 1
+        key = tuple(bits(c) for c in x)
         if self._strike("goal", idx, x):
-            self.struck.append(tuple(bits(c) for c in x))
+            self.struck.append(key)
+            self.struck_now.add(key)
             if self.as_false:
                 return False
             return self._misbehave()
-        return all(ev(p, x) for p in self.sc["goal"]["preds"])
+        ok = all(ev(p, x) for p in self.sc["goal"]["preds"])
+        if ok:
+            self.struck_now.discard(key)
+        return ok
 
     def sample_goal(self):
         k = self.sample_calls
@@ -204,8 +225,16 @@ class Env:
         return self.samples[k % len(self.samples)]
 
 
-def run_scenario(sc, fault=None, as_false=False):
-    env = Env(sc, fault, as_false)
+class EnvD(Env):
+    """A goal object that also implements the documented optional distance_goal (0 inside the region)."""
+
+    def distance_goal(self, s):
+        x = flatten(s, [])
+        return 0.0 if all(ev(p, x) for p in self.sc["goal"]["preds"]) else 1.0
+
+
+def run_scenario(sc, fault=None, as_false=False, with_distance=False):
+    env = (EnvD if with_distance else Env)(sc, fault, as_false)
     space = mk_space(sc["space"])
     start = mk_state(sc["variant"], sc["start"])
     pd = FROM[sc["variant"]](space, start, env)
@@ -220,17 +249,33 @@ def run_scenario(sc, fault=None, as_false=False):
             p = RRTConnect(sc["step"], sc["bias"], pd, cfg)
         else:
             p = PRM(sc["prm_timeout"], sc["step"], pd, cfg)
-        p.setup(env.valid)
-        if pl == "PRM":
-            p.construct_roadmap()
-        path = p.solve(sc["timeout_secs"])
-        states = path.states
-        res = ("ok", [[bits(c) for c in flatten(s, [])] for s in states], states)
     except Fault:
         raise
-    except Exception as e:  # planning errors arrive as plain Exception(text)
-        res = (str(e), [], [])
-    return env, res, space
+    except Exception as e:  # noqa: BLE001
+        return env, [(str(e), [], [])], space
+    calls = []
+    for op in sc.get("history") or (["setup", "construct", "solve"] if pl == "PRM" else ["setup", "solve"]):
+        try:
+            if op == "setup":
+                p.setup(env.valid)
+            elif op == "setup2":
+                p.setup(env.valid2)
+            elif op == "construct":
+                if pl == "PRM":
+                    p.construct_roadmap()
+            elif op == "solve":
+                path = p.solve(sc["timeout_secs"])
+                states = path.states
+                calls.append(("ok", [[bits(c) for c in flatten(s, [])] for s in states], states))
+            else:
+                raise ValueError(op)
+        except Fault:
+            raise
+        except Exception as e:  # planning errors arrive as plain Exception(text)
+            calls.append((str(e), [], []))
+            if op == "construct":
+                break
+    return env, calls, space
 
 
 class Report:
@@ -260,47 +305,76 @@ def c19(inp, rep):
     for sc in inp["scenarios"]:
         exp = sc["expected"]
         try:
-            env, (result, pbits, states), space = run_scenario(sc)
+            env, calls, space = run_scenario(sc)
         except Exception as e:  # noqa: BLE001
             rep.errors.append("scenario %s could not run in Python: %r" % (sc["id"], e))
             continue
         rep.count("scenarios_compared")
         rep.distinct.add(hash(sc["id"]))
         pl = sc["planner"]
-        det = {"scenario": {k: sc[k] for k in ("id", "variant", "planner", "seed", "step", "bias", "radius", "timeout_secs")},
-               "python": {"result": result, "path_len": len(pbits), "valid_calls": env.valid_calls}, "core": {"result": exp["result"], "path_len": len(exp["path_bits"]), "valid_calls": exp["valid_calls"]}}
-        if (result == "ok") != (exp["result"] == "ok") or (result != "ok" and result != exp["result"]):
-            rep.violate("%s|outcome-differs" % pl, "Python returned %r, the Rust core %r" % (result, exp["result"]), det)
+        hist = sc.get("history")
+        if hist and hist.count("solve") + hist.count("setup") + hist.count("setup2") > 2:
+            rep.count("multi_call_histories_compared")
+        det = {"scenario": {k: sc.get(k) for k in ("id", "variant", "planner", "seed", "step", "bias", "radius", "timeout_secs", "history")},
+               "python": {"results": [c[0] for c in calls], "path_lens": [len(c[1]) for c in calls], "valid_calls": env.valid_calls},
+               "core": {"results": [c["result"] for c in exp["calls"]], "path_lens": [len(c["path_bits"]) for c in exp["calls"]], "valid_calls": exp["valid_calls"]}}
+        if len(calls) != len(exp["calls"]):
+            rep.violate("%s|outcome-differs" % pl, "Python made %d reportable calls, the Rust core %d" % (len(calls), len(exp["calls"])), det)
             continue
-        if result == "ok":
-            rep.count("python_paths")
-        if pl != "PRM":
-            if pbits != exp["path_bits"]:
-                rep.violate("%s|path-differs" % pl, "the Python path differs from the Rust core's path (same seed, parameters and callbacks)", det)
-                continue
+        bad = False
+        for ci, ((result, pbits, states), ec) in enumerate(zip(calls, exp["calls"])):
+            which = "" if ci == 0 else "|call%d" % ci
+            if (result == "ok") != (ec["result"] == "ok") or (result != "ok" and result != ec["result"]):
+                rep.violate("%s|outcome-differs%s" % (pl, which), "call %d: Python returned %r, the Rust core %r" % (ci, result, ec["result"]), det)
+                bad = True
+                break
             if result == "ok":
-                rep.count("paths_compared_bitwise")
-        if pl == "PRM" and result == "ok":
-            # soundness against the Python callbacks
-            xs = [flatten(s, []) for s in states]
-            bad = None
-            if not xs or [bits(c) for c in xs[0]] != [bits(c) for c in flatten(mk_state(sc["variant"], sc["start"]), [])]:
-                bad = "does-not-start-at-start"
-            elif not all(ev(p, xs[-1]) for p in sc["goal"]["preds"]):
-                bad = "does-not-end-in-goal"
-            elif any(any(ev(p, x) for p in sc["obstacles"]) for x in xs):
-                bad = "invalid-state-on-path"
-            else:
-                for a, b in zip(states, states[1:]):
-                    if not (space.distance(a, b) <= sc["step"] * (1 + 1e-9) + 1e-5):
-                        bad = "edge-longer-than-radius"
-            rep.count("prm_paths_checked_sound")
-            if bad:
-                rep.violate("PRM|unsound-path:%s" % bad, "Python PRM path is unsound w.r.t. the Python callbacks: %s" % bad, det)
-                continue
-            if pbits != exp["path_bits"]:
-                rep.count("prm_paths_differing_from_core")  # information only (the property asks for soundness)
-        # trace conformance: the sequence of states shown to the validity callback
+                rep.count("python_paths")
+                if len(pbits) >= 2 and pbits[-1] == pbits[-2]:
+                    rep.count("paths_with_repeated_final_state")
+            if pl != "PRM":
+                if pbits != ec["path_bits"]:
+                    rep.violate("%s|path-differs%s" % (pl, which), "call %d: the Python path differs from the Rust core's path (same seed, parameters, callbacks and call history)" % ci, det)
+                    bad = True
+                    break
+                if result == "ok":
+                    rep.count("paths_compared_bitwise")
+            if pl == "PRM" and result == "ok":
+                # soundness against the Python callbacks that were installed when this call was made
+                obst = sc["obstacles"]
+                if hist:
+                    seen_solves = -1
+                    for op in hist:
+                        if op == "setup":
+                            obst = sc["obstacles"]
+                        elif op == "setup2":
+                            obst = sc["obstacles2"]
+                        elif op == "solve":
+                            seen_solves += 1
+                            if seen_solves == ci:
+                                break
+                xs = [flatten(s, []) for s in states]
+                why = None
+                if not xs or [bits(c) for c in xs[0]] != [bits(c) for c in flatten(mk_state(sc["variant"], sc["start"]), [])]:
+                    why = "does-not-start-at-start"
+                elif not all(ev(p, xs[-1]) for p in sc["goal"]["preds"]):
+                    why = "does-not-end-in-goal"
+                elif any(any(ev(p, x) for p in obst) for x in xs):
+                    why = "invalid-state-on-path"
+                else:
+                    for a, b in zip(states, states[1:]):
+                        if not (space.distance(a, b) <= sc["step"] * (1 + 1e-9) + 1e-5):
+                            why = "edge-longer-than-radius"
+                rep.count("prm_paths_checked_sound")
+                if why:
+                    rep.violate("PRM|unsound-path:%s%s" % (why, which), "Python PRM path is unsound w.r.t. the Python callbacks: %s" % why, det)
+                    bad = True
+                    break
+                if pbits != ec["path_bits"]:
+                    rep.count("prm_paths_differing_from_core")  # information only (the property asks for soundness)
+        if bad:
+            continue
+        # trace conformance: the sequence of states shown to the validity callback(s) over the whole history
         rep.count("validity_calls_compared", env.valid_calls)
         if env.valid_calls != exp["valid_calls"] or env.valid_hash != exp["valid_hash"]:
             rep.violate("%s|validity-trace-differs" % pl, "the sequence of states passed to the validity callback differs between Python and the Rust core", det)
@@ -309,7 +383,7 @@ def c19(inp, rep):
             rep.violate("%s|goal-call-counts-differ" % pl, "goal predicate / sampler call counts differ", det)
             continue
         if len(rep.samples) < 6:
-            rep.samples.append({"scenario": sc["id"], "result": result, "path_states": len(pbits), "validity_calls": env.valid_calls, "validity_trace_hash": "%016x" % env.valid_hash})
+            rep.samples.append({"scenario": sc["id"], "results": [c[0] for c in calls], "path_states": [len(c[1]) for c in calls], "validity_calls": env.valid_calls, "validity_trace_hash": "%016x" % env.valid_hash})
     wrappers(inp["wrappers"], rep)
 
 
@@ -395,50 +469,65 @@ def c20(inp, rep):
         placements = [("valid", {"place": "region", "region": sc["goal"]["preds"][0]}), ("goal", {"place": "region", "region": sc["goal"]["preds"][0]})]
         if sc["obstacles"]:
             placements.append(("valid", {"place": "region", "region": widen(region)}))
-        for k in range(kmax):
+        # quick tier: multi-call histories and goals with distance_goal get the region faults and k < 3 only
+        light = inp.get("tier") == "quick"
+        is_hist = "/h-" in sc["id"]
+        for k in range(3 if (light and is_hist) else kmax):
             placements.append(("valid", {"place": "kth", "k": k}))
             placements.append(("goal", {"place": "kth", "k": k}))
         for target, place in placements:
-            ref_fault = dict(place, target=target, kind="raise")
-            try:
-                ref_env, (ref_res, ref_bits, _), _ = run_scenario(sc, ref_fault, as_false=True)
-            except Exception as e:  # noqa: BLE001
-                rep.errors.append("reference run failed for %s: %r" % (sc["id"], e))
-                continue
-            for kind in kinds:
-                fault = dict(place, target=target, kind=kind)
-                rep.count("fault_runs")
-                det = {"scenario": {k: sc[k] for k in ("id", "variant", "planner", "seed")}, "fault": {"target": target, "kind": kind, "placement": place}}
+            # goal faults are also run against a goal object that implements the optional distance_goal
+            wd = [False, True] if target == "goal" and not (light and (is_hist or place.get("k", 0) >= 3)) else [False]
+            for with_d in wd:
+                ref_fault = dict(place, target=target, kind="raise")
                 try:
-                    env, (res, pbits, _), _ = run_scenario(sc, fault)
-                except Fault:
-                    rep.violate("%s|%s|exception-escaped" % (sc["planner"], target), "the injected Python exception propagated out of the planner call instead of being treated as False", det)
-                    continue
+                    ref_env, ref_calls, _ = run_scenario(sc, ref_fault, as_false=True, with_distance=with_d)
                 except Exception as e:  # noqa: BLE001
-                    rep.errors.append("fault run failed for %s: %r" % (sc["id"], e))
+                    rep.errors.append("reference run failed for %s: %r" % (sc["id"], e))
                     continue
-                if env.struck:
-                    rep.count("faults_reached")
-                    rep.distinct.add(hash((sc["id"], target, kind, json.dumps(place, sort_keys=True))))
-                if res == "ok":
-                    rep.count("fault_runs_with_path")
-                cls = "%s|%s-callback|%s" % (sc["planner"], target, kind)
-                if res != ref_res or pbits != ref_bits:
-                    rep.violate(cls + "|differs-from-returning-False", "a %s callback that %s does not behave like one returning False (result %r vs %r)" % (target, {"raise": "raises", "none": "returns None", "int": "returns 1", "str": "returns 'x'"}[kind], res, ref_res), det)
-                    continue
-                if env.valid_calls != ref_env.valid_calls or env.valid_hash != ref_env.valid_hash:
-                    rep.violate(cls + "|trace-differs-from-returning-False", "the validity-query trace differs from the run in which the callback returns False", det)
-                    continue
-                if res == "ok" and env.struck:
-                    struck = set(env.struck)
-                    if target == "valid" and any(tuple(s) in struck for s in pbits):
-                        rep.violate(cls + "|path-through-failed-state", "the returned path contains a state on which the validity callback failed", det)
+                ref_res = [c[0] for c in ref_calls]
+                ref_bits = [c[1] for c in ref_calls]
+                for kind in kinds:
+                    fault = dict(place, target=target, kind=kind)
+                    rep.count("fault_runs")
+                    if with_d:
+                        rep.count("fault_runs_goal_with_distance_goal")
+                    det = {"scenario": {k: sc[k] for k in ("id", "variant", "planner", "seed")}, "fault": {"target": target, "kind": kind, "placement": place, "goal_implements_distance_goal": with_d}}
+                    try:
+                        env, calls, _ = run_scenario(sc, fault, with_distance=with_d)
+                    except Fault:
+                        rep.violate("%s|%s|exception-escaped" % (sc["planner"], target), "the injected Python exception propagated out of the planner call instead of being treated as False", det)
                         continue
-                    if target == "goal" and tuple(pbits[-1]) in struck and sc["planner"] != "RRTConnect":
-                        rep.violate(cls + "|goal-claimed-on-failed-state", "the path ends in a state on which is_satisfied failed", det)
+                    except Exception as e:  # noqa: BLE001
+                        rep.errors.append("fault run failed for %s: %r" % (sc["id"], e))
                         continue
-                if len(rep.samples) < 6 and env.struck:
-                    rep.samples.append({"scenario": sc["id"], "fault": det["fault"], "result": res, "states_struck": len(env.struck)})
+                    res = [c[0] for c in calls]
+                    pbits_all = [c[1] for c in calls]
+                    if env.struck:
+                        rep.count("faults_reached")
+                        rep.distinct.add(hash((sc["id"], target, kind, with_d, json.dumps(place, sort_keys=True))))
+                    if "ok" in res:
+                        rep.count("fault_runs_with_path")
+                    cls = "%s|%s-callback|%s" % (sc["planner"], target, kind) + ("|goal-with-distance_goal" if with_d else "")
+                    if res != ref_res or pbits_all != ref_bits:
+                        rep.violate(cls + "|differs-from-returning-False", "a %s callback that %s does not behave like one returning False (results %r vs %r)" % (target, {"raise": "raises", "none": "returns None", "int": "returns 1", "str": "returns 'x'"}[kind], res, ref_res), det)
+                        continue
+                    if env.valid_calls != ref_env.valid_calls or env.valid_hash != ref_env.valid_hash:
+                        rep.violate(cls + "|trace-differs-from-returning-False", "the validity-query trace differs from the run in which the callback returns False", det)
+                        continue
+                    if env.struck:
+                        struck = env.struck_now
+                        for r1, pbits in zip(res, pbits_all):
+                            if r1 != "ok":
+                                continue
+                            if target == "valid" and any(tuple(s) in struck for s in pbits):
+                                rep.violate(cls + "|path-through-failed-state", "the returned path contains a state on which the validity callback failed", det)
+                                break
+                            if target == "goal" and tuple(pbits[-1]) in struck and sc["planner"] != "RRTConnect":
+                                rep.violate(cls + "|goal-claimed-on-failed-state", "the path ends in a state on which is_satisfied failed", det)
+                                break
+                    if len(rep.samples) < 6 and env.struck:
+                        rep.samples.append({"scenario": sc["id"], "fault": det["fault"], "results": res, "states_struck": len(env.struck)})
 
 
 def widen(p):
